@@ -220,7 +220,7 @@ class Builder(ExprMixin):
                     env[p] = Val("param", p)
         extra_pos = pos[np_:]
         if a.vararg is not None:
-            env[a.vararg.arg] = Val("args", *extra_pos) if not entry else Val("args")
+            env[a.vararg.arg] = Val("args", *extra_pos) if not entry else Val("param", a.vararg.arg)
         for i, p in enumerate(a.kwonlyargs):
             if p.arg in kw:
                 env[p.arg] = kw.pop(p.arg)
@@ -229,7 +229,10 @@ class Builder(ExprMixin):
             else:
                 env[p.arg] = Val("param", p.arg)
         if a.kwarg is not None:
-            env[a.kwarg.arg] = Val("kwargs", *sorted(kw.items(), key=lambda t: t[0]))
+            if entry and not kw:
+                env[a.kwarg.arg] = Val("param", a.kwarg.arg)  # caller-supplied keywords: symbolic input
+            else:
+                env[a.kwarg.arg] = Val("kwargs", *sorted(kw.items(), key=lambda t: t[0]))
 
     def default_val(self, func, expr):
         try:
